@@ -20,7 +20,7 @@ ASSUMPTIONS = [
 PROFILE = scenario.profile(
     maxD=3, noise_modes=("none",), extra_budget=(0, 70),
     target_kinds=("quad", "quad", "l1", "maxn", "plateau", "plateau", "rosen", "linear"),
-    c_classes=("inside", "inside", "hardbox", "on_bound", "outside", "far"),
+    c_classes=("inside", "inside", "hardbox", "on_bound", "outside", "far", "at_x0", "at_x0"),
     cons_x0=("margin",),
     # stobads=True keeps the default policy for deterministic targets (the code switches it off once the target is
     # found to be deterministic), so it is inside the statement's domain
